@@ -14,6 +14,7 @@ use std::collections::{BTreeMap, BTreeSet};
 pub fn compose_table(lang: &str) -> Vec<(&'static str, &'static str, char)> {
     match lang {
         "de" => vec![("ÄÖÜäöü", "AOUaou", '\u{308}')],
+        "xd" => vec![("ÄÖÜäöü", "AOUaou", '\u{308}'), ("Éé", "Ee", '\u{301}')],
         "es" => vec![
             ("ÁÉÍÓÚáéíóú", "AEIOUaeiou", '\u{301}'),
             ("Ññ", "Nn", '\u{303}'),
@@ -58,10 +59,18 @@ pub fn symbol_pairs(lang: &str) -> Vec<(char, char, char)> {
     }
 }
 
+/// Characters a language's compositions delete (composition to the empty string).
+pub fn deleted_by_composition(lang: &str) -> Vec<char> {
+    match lang {
+        "xc" => vec!['\u{ad}'],
+        _ => vec![],
+    }
+}
+
 /// Letters folded to two letters (no decomposed form).
 pub fn expanding_table(lang: &str) -> Vec<(char, &'static str)> {
     match lang {
-        "de" => vec![('ẞ', "SS"), ('ß', "ss")],
+        "de" | "xd" => vec![('ẞ', "SS"), ('ß', "ss")],
         "fr" => vec![('Æ', "AE"), ('æ', "ae"), ('Œ', "OE"), ('œ', "oe"), ('Ø', "OE"), ('ø', "oe")],
         "xk" => vec![('ゟ', "より")],
         // the reduce-only language: every entry of its reduce table (two of them do not lengthen the text)
@@ -97,6 +106,7 @@ pub fn compose(lang: &str, input: &[char]) -> Vec<char> {
     let acc = accents(lang);
     let single = singleton_table(lang);
     let pairs = symbol_pairs(lang);
+    let deleted = deleted_by_composition(lang);
     let mut out = Vec::with_capacity(input.len());
     let mut i = 0;
     while i < input.len() {
@@ -112,7 +122,9 @@ pub fn compose(lang: &str, input: &[char]) -> Vec<char> {
                 continue;
             }
         }
-        out.push(single.iter().find(|(from, _)| *from == input[i]).map(|(_, to)| *to).unwrap_or(input[i]));
+        if !deleted.contains(&input[i]) {
+            out.push(single.iter().find(|(from, _)| *from == input[i]).map(|(_, to)| *to).unwrap_or(input[i]));
+        }
         i += 1;
     }
     out
@@ -155,7 +167,7 @@ pub fn listed_function_words(lang: &str) -> BTreeSet<String> {
     let mut out = BTreeSet::new();
     for line in FUNCTION_WORDS_TXT.lines() {
         let mut it = line.split(' ');
-        if it.next() == Some(lang) {
+        if it.next() == Some(base_lang(lang)) {
             for w in it {
                 out.insert(norm_word(lang, w));
             }
